@@ -103,10 +103,11 @@ class Prop(common.PropertyCheck):
         # default clustering / selection after earlier calls that passed explicit rescaling options
         yield dict(base_case, K=7, sizes=[420] * 7, warmup=True, seed=rng.randrange(1 << 30))
         # exactly three subpopulations left for the fit (brightest saturated, two values unknown)
-        yield dict(base_case, K=6, saturate=True, unknown=[(0, 1), (0, 3)], nch=1, seed=rng.randrange(1 << 30))
+        for _ in range(3):
+            yield dict(base_case, K=6, saturate=True, unknown=[(0, 1), (0, 3)], nch=1, af_frac=(0.35, 0.45), seed=rng.randrange(1 << 30))
         # corner of the envelope: tightly spaced populations, autofluorescence close to half the dimmest bead, large intercept, no blank
-        for _ in range(self.budget(2, 12)):
-            yield dict(base_case, ratio=rng.uniform(2.5, 2.8), af_frac=(0.42, 0.49), b_min=4.2, cv=0.02, nch=1, seed=rng.randrange(1 << 30))
+        for _ in range(self.budget(8, 24)):
+            yield dict(base_case, ratio=rng.uniform(2.5, 2.8), af_frac=(0.42, 0.49), b_min=4.2, cv=0.004, nch=1, seed=rng.randrange(1 << 30))
         for i in range(n):
             K = rng.choice([6, 7, 8])
             equal = rng.random() < 0.6
